@@ -134,6 +134,14 @@ TArityVectors ==
     \cup {[tool |-> "kthlist2pebbling", name |-> "", valid |-> <<"-i", "@gdfile", t>> \o a, kinds |-> <<>>,
            fmt |-> "default", dev |-> "raw", pos |-> 0, cls |-> "", opts |-> {}] : t \in TNames, a \in TArgLists}
 
+\* The other help requests of the two generators (graph documentation, tutorial); global options come before
+\* the sub-command, after it they may be refused
+HelpVectors ==
+    {[tool |-> t, name |-> "", valid |-> a, kinds |-> <<>>, fmt |-> "default", dev |-> "raw_help", pos |-> 0, cls |-> "",
+      opts |-> {}] : t \in Tools,
+                     a \in { <<h>> : h \in {"--help-graph", "--help-bipartite", "--help-dag", "--tutorial", "--help", "-h"} }
+                        \cup { <<"-q", h>> : h \in {"--help-graph", "--help-dag"} } }
+
 \* Graph constructions with every combination of small numeric arguments (0 and 1 are where the
 \* validators and the samplers meet): the sub-command is the simplest one taking that graph type.
 Constructions == { <<"tiling", "gnp", 2>>, <<"tiling", "gnm", 2>>, <<"tiling", "gnd", 2>>, <<"tiling", "grid", 2>>,
@@ -170,7 +178,7 @@ OtherVectors ==
                  x \in OtherTools}
   \cup {V(x.tool, x.sc, "default", d, 0, "", {}) : x \in OtherTools,
             d \in {"missing_last", "extra_argument", "unknown_option", "help", "seed_word", "output_to_directory"}}
-AllVectors == Vectors \cup OtherVectors \cup RefusalVectors \cup SpecGridVectors \cup LargeVectors \cup TArityVectors
+AllVectors == Vectors \cup OtherVectors \cup RefusalVectors \cup SpecGridVectors \cup LargeVectors \cup TArityVectors \cup HelpVectors
 
 \* dimacs output cannot be asked of pbgen, and transformations are cnfgen's
 Expect(v) ==
@@ -179,7 +187,7 @@ Expect(v) ==
          \* pbgen refuses '-T' and '--output-format dimacs' while parsing: the format is not established yet
          (IF v.tool = "pbgen" /\ (v.fmt = "option_dimacs" \/ \E k \in 1..Len(v.valid) : v.valid[k] = "-T")
           THEN "any" ELSE "any_strict_marker")
-    ELSE IF v.dev \in {"help", "sub_help"} THEN "help"
+    ELSE IF v.dev \in {"help", "sub_help", "raw_help"} THEN "help"
     ELSE IF v.dev = "none" /\ ~(v.tool = "pbgen" /\ v.fmt = "dimacs") /\ ~(v.tool = "pbgen" /\ v.name = "dimacs")
          THEN "must_succeed"
     ELSE "any"
